@@ -65,6 +65,21 @@ func verifLongName_aaaaaaaaaaaaaaaaaaaaaaaaaaaaaaaaaaaaaaaaaaaaaaaaaaaaaaaaaaaaa
 	return p[:runtime.Callers(1, p)]
 }
 
+// A function whose name is long in bytes but short in characters (the
+// counter-name limit is in bytes).
+//
+//go:noinline
+func 関数長い名前長い名前長い名前長い名前長い名前長い名前長い名前長い名前長い名前長い名前長い名前長い名前長い名前長い名前長い名前長い名前長い名前長い名前長い名前長い名前長い名前長い名前長い名前長い名前終(n int) []uintptr {
+	if n > 0 {
+		r := 関数長い名前長い名前長い名前長い名前長い名前長い名前長い名前長い名前長い名前長い名前長い名前長い名前長い名前長い名前長い名前長い名前長い名前長い名前長い名前長い名前長い名前長い名前長い名前長い名前終(n - 1)
+		return r
+	}
+	p := make([]uintptr, 64)
+	return p[:runtime.Callers(1, p)]
+}
+
+var cjkPCs = 関数長い名前長い名前長い名前長い名前長い名前長い名前長い名前長い名前長い名前長い名前長い名前長い名前長い名前長い名前長い名前長い名前長い名前長い名前長い名前長い名前長い名前長い名前長い名前長い名前終(20)
+
 // longPCs are the PCs of a 20-deep stack of a function with a ~320 byte name:
 // 16 of its frames exceed the 4096-byte name limit.
 var longPCs = verifLongName_aaaaaaaaaaaaaaaaaaaaaaaaaaaaaaaaaaaaaaaaaaaaaaaaaaaaaaaaaaaaaaaaaaaaaaaaaaaaaaaaaaaaaaaaaaaaaaaaaaaaaaaaaaaaaaaaaaaaaaaaaaaaaaaaaaaaaaaaaaaaaaaaaaaaaaaaaaaaaaaaaaaaaaaaaaaaaaaaaaaaaaaaaaaaaaaaaaaaaaaaaaaaaaaaaaaaaaaaaaaaaaaaaaaaaaaaaaaaaaaaaaaaaaaaaaaaaaaaaaaaaaaaaaaaaaaaaaaaaaaaaaaaaaaaaaaaaaaaaaaa(20)
@@ -179,8 +194,12 @@ func genReport(r *verifrt.Rand, canary string) (*synReport, []uint64, bool) {
 				f.Symbol = "runtime.sigpanic"
 			}
 			real := pcPool[r.Intn(len(pcPool))]
-			if longStack && k < len(longPCs) {
-				real = longPCs[k]
+			deep := longPCs
+			if gi%2 == 1 || ng == 1 && nf%2 == 1 {
+				deep = cjkPCs
+			}
+			if longStack && k < len(deep) {
+				real = deep[k]
 				f.HasPC = true
 				f.Symbol = "main.f"
 			}
@@ -265,7 +284,7 @@ func TestVerifC14(t *testing.T) {
 func c14Synthetic(t *testing.T) {
 	const check = "C14.synthetic"
 	res := verifrt.NewResult(check)
-	res.Rule = "crash texts: random bytes; structured tracebacks from a grammar (0-3 goroutines in any status, the running one first/later/absent, 0-200 frames with arbitrary symbol/argument/file text incl. sigpanic look-alikes, frames without pc=, created-by lines, sentinel relocated by 0/4KiB/huge/wrapping deltas, PCs = genuine function PCs of this binary, 0, 1, 2^64-1) and metamorphic variants differing only in non-PC text (messages, multi-line tab-indented messages quoting goroutine dumps, file paths containing ' pc=0x...' text, arguments, paths, other symbols not equal to runtime.sigpanic, other goroutines, extra sentinel lines after the first, removed/garbled sentinel). Oracle: terminates within the tick budget without panic; result is an error, the fixed no-running-goroutine name, or crash/crash + <= 16 physical frames, <= 4096 bytes; equals EncodeStack of the harness's own relocated PC list; variants give the same name or an error; canary tokens placed in every text position never occur in the name. distinct = distinct report texts; non-trivial = report has a running goroutine with >= 1 PC"
+	res.Rule = "crash texts: random bytes; structured tracebacks from a grammar (0-3 goroutines in any status, the running one first/later/absent, 0-200 frames with arbitrary symbol/argument/file text incl. sigpanic look-alikes, frames without pc=, created-by lines, sentinel relocated by 0/4KiB/huge/wrapping deltas, PCs = genuine function PCs of this binary, 0, 1, 2^64-1) and metamorphic variants differing only in non-PC text (messages, multi-line tab-indented messages quoting goroutine dumps, file paths containing ' pc=0x...' text, panic values of 900-2200 lines, arguments, paths, other symbols not equal to runtime.sigpanic, other goroutines, extra sentinel lines after the first, removed/garbled sentinel). Oracle: terminates within the tick budget without panic; result is an error, the fixed no-running-goroutine name, or crash/crash + <= 16 physical frames, <= 4096 bytes; equals EncodeStack of the harness's own relocated PC list; variants give the same name or an error; canary tokens placed in every text position never occur in the name. distinct = distinct report texts; non-trivial = report has a running goroutine with >= 1 PC"
 	n := verifrt.Scale(12000, 1000000)
 	for i := 0; i < n; i++ {
 		if !verifrt.WantCase(check, i) {
@@ -331,7 +350,18 @@ func c14Synthetic(t *testing.T) {
 					break
 				}
 			}
-			switch k := rnd.Intn(8); k {
+			switch k := rnd.Intn(9); k {
+			case 8:
+				// a very long panic value (a dumped data structure, a quoted log):
+				// the goroutines come a thousand or more lines into the report
+				kind = "long-message"
+				n := verifrt.Pick(rnd, []int{900, 1000, 1005, 1010, 1015, 1020, 1024, 1030, 2200})
+				q := []string{"panic: " + canary + "Z long value follows"}
+				for k := 0; k < n; k++ {
+					q = append(q, fmt.Sprintf("\tline %d of the value", k))
+				}
+				q = append(q, "")
+				vr.Mid = q
 			case 7:
 				// a multi-line panic value that quotes a goroutine dump: the runtime
 				// prints a tab after every newline of the value, so the quoted lines
@@ -420,7 +450,7 @@ func c14Synthetic(t *testing.T) {
 			res.Sample(map[string]any{"case": i, "report_head": fmt.Sprintf("%.400s", text), "name": trunc(name), "err": fmt.Sprint(err)})
 		}
 	}
-	res.Require("named", "error", "no-running-goroutine", "more-than-16-frames", "truncated-name", "variant:message", "variant:files-with-pc-text", "variant:multiline-message", "variant:extra-sentinel-later", "variant:other-symbols")
+	res.Require("named", "error", "no-running-goroutine", "more-than-16-frames", "truncated-name", "variant:message", "variant:long-message", "variant:files-with-pc-text", "variant:multiline-message", "variant:extra-sentinel-later", "variant:other-symbols")
 	if err := res.Write(); err != nil {
 		t.Fatal(err)
 	}
